@@ -48,7 +48,14 @@
         }
         let analyzer = BoundsAnalyzer::from_domain(&domain);
         let atoms = vec![v("x"), v("y"), v("z"), num(0.0), num(3.0), num(-1.5), Exp::And(vec![v("x"), v("y")])];
-        let l1 = grow(&atoms, &atoms);
+        let mut l1 = grow(&atoms, &atoms);
+        // three and four operands with the extreme operand in every position
+        for perm in [["x", "y", "z"], ["x", "z", "y"], ["y", "x", "z"], ["z", "x", "y"], ["y", "z", "x"], ["z", "y", "x"]] {
+            l1.push(Exp::Min(perm.iter().map(|n| v(n)).collect()));
+            l1.push(Exp::Max(perm.iter().map(|n| v(n)).collect()));
+            l1.push(Exp::Min(vec![num(3.0), v(perm[0]), v(perm[1]), v(perm[2])]));
+            l1.push(Exp::Max(vec![v(perm[0]), v(perm[1]), num(-1.5), v(perm[2])]));
+        }
         let l2 = grow(&l1, &atoms);
         let l3: Vec<Exp> = grow(&l2, &atoms).into_iter().step_by(5).collect();
         let pts: Vec<[f64; 3]> = { let mut p = vec![]; for x in [-3.0, -1.0, 0.0, 2.5, 5.0] { for y in [-4.0, -0.5, 0.0, 2.0] { for z in [0.0, 1.0, 1024.0] { p.push([x, y, z]); } } } p };
